@@ -847,6 +847,70 @@ def extra_c13(pid, tier, seed, harness, stats, h):
             return
 
 
+def j_fuzz_agree(sh, a, b):
+    """coverage-selected inputs, C03/C09: what the decoder returns (accepted or rejected, the decoded values, the
+    bytes drawn) is what the model of the decoder returns"""
+    res = base(sh, a, b, {'RD', 'DEC', 'STR'})
+    for i in range(a, b):
+        if opname(sh['ops'][i]) in ('RD', 'DEC'):
+            res['evals'] += 1
+            res['keys'].append(hashlib.md5(sh['ops'][i].encode()).hexdigest()[:10])
+    return res
+
+
+def extra_fuzz(pid, tier, seed, harness, stats, h):
+    """search support for C04/C05 (thorough tier): Go's coverage-guided fuzzing of ReadPacket and of UnmarshalBinary on
+    a re-used target (harness/fuzz). A failing input it reports, and the inputs it kept because they reached new code,
+    are turned into operation lines (`mqharness fuzzops`), executed by implementation and model and judged by the
+    judge of the property like generated cases. Proves nothing; widens what the correspondence sees."""
+    if tier != 'thorough':
+        return
+    hdir = os.path.join(h['ROOT'], 'harness')
+    secs = int(os.environ.get('VERIF_FUZZ_SECONDS', '60'))
+    gocache = subprocess.run(['go', 'env', 'GOCACHE'], capture_output=True, text=True, env=h['GOENV']).stdout.strip()
+    judge = PROPS[pid]['judge'] if pid in ('C04', 'C05') else per_case(j_fuzz_agree)
+    ctx = dict(split_cases=h['split_cases'])
+    for target in ('FuzzReadPacket', 'FuzzUnmarshal'):
+        tdir = os.path.join(hdir, 'fuzz', 'testdata', 'fuzz', target)
+        before = set(os.listdir(tdir)) if os.path.isdir(tdir) else set()
+        p = subprocess.run(['go', 'test', '-tags', 'verif', '-run', 'xxx', '-fuzz=^' + target + '$', '-fuzztime=%ds' % secs, '-parallel', str(max(2, (os.cpu_count() or 4) // 2)), './fuzz'],
+                           cwd=hdir, env=h['GOENV'], capture_output=True, text=True)
+        m = re.findall(r'execs: (\d+)', p.stdout)
+        stats['hist']['fuzz %s execs' % target] = int(m[-1]) if m else 0
+        failing = sorted(set(os.listdir(tdir)) - before) if os.path.isdir(tdir) else []
+        srcs = [os.path.join(tdir, f) for f in failing]
+        cdir = os.path.join(gocache, 'fuzz', 'mqverif', 'fuzz', target)
+        if os.path.isdir(cdir):
+            srcs.append(cdir)
+        ops = subprocess.run([harness, 'fuzzops', target] + srcs, capture_output=True, text=True).stdout
+        for f in failing:          # a failing input is evidence for this run only; it is re-found if the defect stays
+            os.remove(os.path.join(tdir, f))
+        if not ops.strip():
+            if p.returncode != 0 and 'FAIL' in p.stdout:
+                yield ('nofail', dict(property=pid, kind='obligation', what='fuzz target %s fails but its input could not be converted: %s' % (target, p.stdout[-300:])))
+            continue
+        sh = h['run_shard'](harness, 'fuzz:' + target, 0, 0, ops)
+        found = False
+        for (a, b), res in zip(h['split_cases'](sh), judge(sh, ctx)):
+            stats['cases'] += 1
+            stats['evaluations'] += res.get('evals', 1)
+            for k in res.get('keys', []):
+                stats['distinct'].add(k)
+            stats['hist']['fuzz %s corpus inputs' % target] = stats['hist'].get('fuzz %s corpus inputs' % target, 0) + 1
+            for kind, lst in (('concrete', res['concrete']), ('nofail', res['diverge'])):
+                for v in lst[:1]:
+                    if found:
+                        continue
+                    found = True
+                    end = min(b, v['line'] + 1)
+                    yield (kind, dict(property=pid, kind='concrete' if kind == 'concrete' else 'correspondence', what=v['what'],
+                                      **{'class': 'fuzz:' + target}, seed=0, ops=sh['ops'][a:end], impl=sh['go'][a:end], model=sh['lean'][a:end]))
+        if p.returncode != 0 and failing and not found:
+            # the fuzz target's own oracle failed (it has a wall-clock watchdog, which a loaded machine can trip) but the
+            # executor, with its re-runs, and the judge of the property do not confirm it on that input: not reported
+            stats['hist']['fuzz %s failure not confirmed by the executor' % target] = len(failing)
+
+
 def per_case(fn):
     def js(sh, ctx):
         return [fn(sh, a, b) for a, b in ctx['split_cases'](sh)]
@@ -865,11 +929,14 @@ PROPS = {
     'C02': P(js_c02, [('pkt', 1400), ('rewrite', 400), ('willx', 200)], [('pkt', 40000), ('pkt+', 2000), ('rewrite', 10000), ('willx', 5000)],
              'well-formed in-domain packets; the bytes WriteTo produced are parsed by the independent Spec.parse in Lean and compared with the API values; distinct as C01'),
     'C03': P(js_c03, [('frames', 1600)], [('frames', 40000), ('frames+', 1500)],
-             'specification-style generated valid frames (all 15 types, property permutations, explicit zeros, short forms); distinct by (type, set of non-default fields)'),
+             'specification-style generated valid frames (all 15 types, property permutations, explicit zeros, short forms); distinct by (type, set of non-default fields); thorough adds the inputs Go native fuzzing keeps, on which model and decoder must return the same',
+             extra=extra_fuzz),
     'C04': P(per_case(j_c04), [('malformed', 1500), ('reject', 40), ('cuts', 40)], [('malformed', 60000), ('reject', 1500), ('cuts', 1500), ('short', 2)],
-             'arbitrary, truncated and mutated bytes through UnmarshalBinary of every type and through ReadPacket; distinct = distinct input lines'),
+             'arbitrary, truncated and mutated bytes through UnmarshalBinary of every type and through ReadPacket; distinct = distinct input lines; thorough adds the inputs Go native fuzzing keeps (input_distribution: fuzz …)',
+             extra=extra_fuzz),
     'C05': P(per_case(j_c05), [('malformed', 1500), ('reject', 40), ('cuts', 40)], [('malformed', 60000), ('reject', 1500), ('cuts', 1500)],
-             'as C04, outcome = returned within the watchdog and list elements <= input bytes; distinct = distinct input lines'),
+             'as C04, outcome = returned within the watchdog and list elements <= input bytes; distinct = distinct input lines',
+             extra=extra_fuzz),
     'C06': P(per_case(j_c06), [('seq', 1200)], [('seq', 40000)],
              'concatenations of 1..5 frames (valid, content-malformed, zero-length) plus trailing bytes; distinct by the vector of frame lengths and tail'),
     'C07': P(per_case(j_c07), [('frames', 1200)], [('frames', 20000), ('comps', 200)],
@@ -877,7 +944,8 @@ PROPS = {
     'C08': P(per_case(j_c08), [('cuts', 120)], [('cuts', 4000)],
              'every cut offset of generated frames x EOF / transport error x delivery style; distinct = distinct (prefix, schedule, failure) lines'),
     'C09': P(per_case(j_c09), [('reject', 150)], [('reject', 3000), ('reject+', 300)],
-             'valid frames mutated by the four rules (cut inside a field per the field map, fifth varint byte, boolean 2..255, undefined identifier); distinct = distinct mutated frames'),
+             'valid frames mutated by the four rules (cut inside a field per the field map, fifth varint byte, boolean 2..255, undefined identifier); distinct = distinct mutated frames; thorough adds the inputs Go native fuzzing keeps, on which model and decoder must accept/reject alike',
+             extra=extra_fuzz),
     'C10': P(per_case(j_c10), [('pkt', 900), ('odd', 500), ('rewrite', 400)], [('pkt', 30000), ('odd', 10000), ('pkt+', 1000), ('rewrite', 10000)],
              'API-built packets (in-domain and constructible-malformed, zero values) x writers (succeed / fail / accept k bytes); distinct as C01'),
     'C11': P(js_c11, [('pkt', 1200)], [('pkt', 30000)],
